@@ -257,7 +257,7 @@ func (s *EncryptionSession) In(seqNum uint32, prio bool) (
 		if prio {
 			return nil, errors.New("prio sequence handler requested key rollover")
 		}
-		s.prioSeqHandler.Reset()
+		s.prioSeqHandler.ResetIn()
 		if err := s.rolloverInKey(); err != nil {
 			return nil, fmt.Errorf("rollover in key: %w", err)
 		}
@@ -294,7 +294,7 @@ func (s *EncryptionSession) Out(prio bool) (
 		if prio {
 			return 0, 0, 0, nil, errors.New("prio sequence handler requested key rollover")
 		}
-		s.prioSeqHandler.Reset()
+		s.prioSeqHandler.ResetOut()
 		if err := s.rolloverOutKey(); err != nil {
 			return 0, 0, 0, nil, fmt.Errorf("rollover in key: %w", err)
 		}
@@ -411,6 +411,23 @@ func (sh *SequenceHandler) Reset() {
 	defer sh.lock.Unlock()
 
 	sh.highest = 0
+	sh.outSeq.Store(0)
+}
+
+// ResetIn resets the incoming sequence counter to zero.
+// This is used for resetting the incoming priority sequence,
+// when the regular sequence triggered a rollover of the incoming key.
+func (sh *SequenceHandler) ResetIn() {
+	sh.lock.Lock()
+	defer sh.lock.Unlock()
+
+	sh.highest = 0
+}
+
+// ResetOut resets the outgoing sequence counter to zero.
+// This is used for resetting the outgoing priority sequence,
+// when the regular sequence triggered a rollover of the outgoing key.
+func (sh *SequenceHandler) ResetOut() {
 	sh.outSeq.Store(0)
 }
 
